@@ -18,7 +18,7 @@ CLAIMS = {
          "mutually inverse (exhaustive); var/level unit discipline of the exporter/importer; no edge leaked on importer error "
          "paths; MIR taint analysis of the importer: no number decoded from the file reaches an index, subtraction or allocation size "
          "without a dominating range check or checked/clamping operation; id-list sortedness checks are strict; no overflow check relies "
-         "on checked_shl; prefix tests have the file buffer as receiver. Round-trip equality and totality beyond these sinks are not decided.",
+         "on checked_shl; prefix tests have the file buffer as receiver. Tables addressed by manager levels are sized by the manager, not by the file (E-UNITS.sized). Round-trip equality and totality beyond these sinks are not decided.",
          "constant-table extraction from HIR + exhaustive evaluation; unit analysis", "3.9, 4 C15"),
  "C19": ("E-FFI + E-LIN + E-UNITS on oxidd-ffi-c: C symbol <-> Rust operation wiring and operand order, equal export sets of the "
          "three files, from_raw only under ManuallyDrop::new (borrow) or drop (unref), no entry point but the documented one "
@@ -42,7 +42,7 @@ CLAIMS = {
          "answer absent only on a FREE slot. Necessary conditions of `free <= #FREE slots` (termination of lookups, intact probe chains); set "
          "semantics over operation sequences is not decided.",
          "MIR dataflow/dominance rules with a frozen writer table", "3.8, 4 C17"),
- "C02": ("E-TABLE.{bdd,bcdd,shortcut,step} + E-WRAP + E-UNITS + E-CACHE: the terminal/base-case table of all 8 BDD connectives and "
+ "C02": ("E-TABLE.{bdd,bcdd,shortcut,step} + E-WRAP + E-UNITS + E-CACHE + E-TABLE.cof + E-EVAL: the terminal/base-case table of all 8 BDD connectives and "
          "BCDD's terminal_and/terminal_xor (incl. complement tags) are enumerated over their abstract operand domain and compared "
          "with truth tables; the shortcut prefixes of apply_ite (BDD) and of the ZBDD set operations are interpreted up to the "
          "cache lookup; every BooleanFunction `x_edge` wrapper (BDD, BCDD, ZBDD; ST and MT) is interpreted over abstract operands and must "
@@ -51,7 +51,7 @@ CLAIMS = {
          "apply_not (BDD, BCDD with all complement-tag combinations) and of the ZBDD set operations is interpreted on structured "
          "abstract operands in every level configuration and compared with the operator for all values of the atoms and decision "
          "variables (plus variable-order and cache-entry validity). Decides base cases, shortcuts, the inductive step and wiring -- "
-         "the induction itself, memory exhaustion and scheduling are not decided. E-EVAL: eval_edge interpreted for one iteration of its argument loop (the value given last counts, injective encodings, no other entry touched) and one call of its walk (child for the stored value; complement flag / counter / terminals), plus the initial call.",
+         "the induction itself, memory exhaustion and scheduling are not decided. E-TABLE.cof: DiagramRules::cofactors/cofactor of every kind (incl. the BCDD iterator) yield the children with the incoming tag applied, and cofactors_node/cofactors_edge hand them out in order. E-EVAL: eval_edge interpreted for one iteration of its argument loop (the value given last counts, injective encodings, no other entry touched) and one call of its walk (child for the stored value; complement flag / counter / terminals), plus the initial call.",
          "abstract interpretation of HIR case tables and wrappers over finite domains", "3.3, 3.4, 3.12, 4 C02"),
  "C04": ("E-TABLE.step + E-WRAP + E-UNITS + E-CACHE: quantifier wrappers and the BDD/BCDD apply-and-quantify dispatch (dualisation) tables are "
          "interpreted for all 8 operators and compared with Q v.(f op g) over all operand valuations; var/level units of the "
@@ -122,7 +122,7 @@ CLAIMS = {
          "the manager; AllocResult is unwrapped only where allocation cannot fail (static terminals) and process::abort is reached only "
          "from reviewed sites (2 recorded known findings: level_swap and ZBDDCache::post_reorder_mut abort on OOM); gc sweeps terminals "
          "after all levels (one collection frees what a retry needs), a failed allocation does not stay counted, the terminal free "
-         "list is written back after a sweep. Does not decide "
+         "list is written back after a sweep; the slot allocator reports OutOfMemory only after consulting the shared free lists. Does not decide "
          "state validity after failure.",
          "MIR drop-terminator typestate lint + call-site inventory", "3.1, 3.9, 4 C14"),
  "C09": ("E-WRAP + E-TABLE.{reduce,shortcut,step,skip}(zbdd) + E-UNITS + E-CACHE: the BooleanVecSet wrappers and the Boolean view of ZBDDs "
